@@ -87,6 +87,10 @@ func genAmbient(t *rapid.T) map[string]string {
 	if cap := rapid.SampledFrom([]string{"", "", "100%", "50%", "10%", "1", "2", "64"}).Draw(t, "ambcpu"); cap != "" {
 		out["cpu-cap"] = fmt.Sprintf("%q", cap)
 	}
+	// the raw-socket producer's retry limit (0 = no retries, absent = its default)
+	if r := rapid.SampledFrom([]string{"", "", "0", "0", "1", "5", "~drop~"}).Draw(t, "ambretry"); r != "" {
+		out["mq:retry-max"] = r
+	}
 	return out
 }
 
@@ -95,9 +99,12 @@ const e2ePipeRule = " | end-to-end stage: the same generated phases are sent ove
 	"sink lines == expected payload multiset (each exactly once, nothing extra), also after a fence of further datagrams and process exit"
 
 func genE2EPipe(t *rapid.T) e2ePipeCase {
+	return genE2EPipeProto(t, rapid.SampledFrom(robustProtos).Draw(t, "proto"))
+}
+
+func genE2EPipeProto(t *rapid.T, proto string) e2ePipeCase {
 	envs := map[string]*wire.GenEnv{"ipfix": wire.NewGenEnv("ipfix"), "nf9": wire.NewGenEnv("nf9")}
 	envs["ipfix"].NoEnterprise = true
-	proto := rapid.SampledFrom(robustProtos).Draw(t, "proto")
 	c := e2ePipeCase{P: genPipeline(t, proto, envs, 250)}
 	c.Ambient = genAmbient(t)
 	if c.P.UDPSize > 9000 {
@@ -376,6 +383,35 @@ func normBack(payload string, s *lineSink) string {
 	}
 	return payload
 }
+
+// e2eDecodeTest: the end-to-end stage of a decoding property (C03, C06, C07, C08): one protocol's generated traffic
+// through the real binary (real socket, receive loop, workers, producer), compared with the library decode that the
+// property's main check validates against the reference model.
+func e2eDecodeTest(t *testing.T, prop, proto string) {
+	col := getCollector(prop, "")
+	col.Rule += " | end-to-end stage: generated " + proto + " traffic (generator of C12) through the real collector binary; what reaches the sink equals, message by message, the library decode of each datagram (which this check's main stage validates against the reference model); UDPCount and DecodedCount account for every datagram"
+	col.sampler = func(cj []byte) []byte {
+		var c e2ePipeCase
+		if json.Unmarshal(cj, &c) != nil || len(c.P.Phases) == 0 {
+			return cj
+		}
+		return summarisePipeline(mustJSON(c.P))
+	}
+	gen := rapid.Custom(func(t *rapid.T) e2ePipeCase { return genE2EPipeProto(t, proto) })
+	n := e2eCases(1)
+	seed := e2eSeed()
+	for i := 0; i < n; i++ {
+		c := gen.Example(seed*1000 + 400 + i)
+		v, sig, err := runE2EPipe(prop, &c)
+		col.report(t, mustJSON(c), v, sig, err)
+		col.addExtra("e2e_cases", 1)
+	}
+}
+
+func TestC03E2E(t *testing.T) { e2eDecodeTest(t, "C03", "ipfix") }
+func TestC06E2E(t *testing.T) { e2eDecodeTest(t, "C06", "nf9") }
+func TestC07E2E(t *testing.T) { e2eDecodeTest(t, "C07", "sflow") }
+func TestC08E2E(t *testing.T) { e2eDecodeTest(t, "C08", "nf5") }
 
 func e2ePipeTest(t *testing.T, prop string) {
 	col := getCollector(prop, "")
@@ -895,7 +931,7 @@ func init() {
 		_, _, err := runC01E2E(&c)
 		return err
 	})
-	for _, p := range []string{"C12", "C13"} {
+	for _, p := range []string{"C12", "C13", "C03", "C06", "C07", "C08"} {
 		prop := p
 		registerReplayExtra(prop, "pipeline", func(raw json.RawMessage) error {
 			installEnterprise()
